@@ -22,7 +22,7 @@ from mc.lattice import chunked
 from mc.ref import queryeval as Q
 
 BOUNDS = {
-    "quick": {"arg_shapes": "35 (15 base shapes + 5 special strings wrapped in list / nested list followed by an element / dict value / dict key)", "calls": "all calls of the probe functions with 0-3 arguments over the 35 shapes (44 136)", "contexts": 12, "styles": "all 40 separator-spacing styles (none/space/newline before/after each of , : = ;) for calls with <=2 arguments, 3 styles x 6 contexts for 3 arguments", "literals": "all list/dict literals of depth <=2 over 3 atoms with <=2 entries", "builtins": "every registered function x argument pools x {literal, variable, nested call} forms"},
+    "quick": {"arg_shapes": "36 (16 base shapes + 5 special strings wrapped in list / nested list followed by an element / dict value / dict key)", "calls": "all calls of the probe functions with 0-3 arguments over the 35 shapes (44 136)", "contexts": 12, "styles": "all 42 separator-spacing styles (incl. tabs and CRLF line breaks) (none/space/newline before/after each of , : = ;) for calls with <=2 arguments, 3 styles x 6 contexts for 3 arguments", "literals": "all list/dict literals of depth <=2 over 3 atoms with <=2 entries", "builtins": "every registered function x argument pools x {literal, variable, nested call} forms"},
     "thorough": {"styles": "all 40 styles also for 3-argument calls", "calls4": "all calls with 4 arguments over the 15 base shapes (50 625) in 3 contexts x 3 styles", "literals": "depth 3 with <=2 entries over 2 atoms (sampled exhaustively by structure)", "rest": "as quick"},
 }
 RULE = (
@@ -170,6 +170,7 @@ def shapes():
         ("str-brackets", S("x(y)[z]{w}")),
         ("str-eq", S("k=v", "'")),
         ("str-escq", S('q"r')),
+        ("str-unicode", S("é ∑ \U0001F600")),
         ("list0", ("list", ())),
         ("list1", ("list", (("int", 1),))),
         ("list-nested", ("list", (("list", (("int", 1),)), ("int", 2)))),
@@ -321,7 +322,7 @@ def _unit_args4(args):
     styles = [s for s in Q.all_styles() if s[0] in style_names]
     u = Unit()
     shp = shapes()
-    for rest in itertools.product(range(15), repeat=2):
+    for rest in itertools.product(range(16), repeat=2):
         call = ("call", "args4", tuple(shp[i][1] for i in (f, g) + rest))
         for c in ctxs:
             u.states += 1
@@ -463,10 +464,10 @@ def run(ctx):
     units.append(("args", (None, 1, CONTEXTS, sty)))
     for f in range(nshape):
         units.append(("args", (f, 2, CONTEXTS, sty)))
-        units.append(("args", (f, 3, CONTEXTS if ctx.thorough else CONTEXTS3, sty if ctx.thorough else ("compact", "spaced", "newlines"))))
+        units.append(("args", (f, 3, CONTEXTS if ctx.thorough else CONTEXTS3, sty if ctx.thorough else ("compact", "spaced", "newlines", "tabs"))))
     if ctx.thorough:
-        for f in range(15):
-            for g in range(15):
+        for f in range(16):
+            for g in range(16):
                 units.append(("args4", (f, g, ("top", "dict-val", "rebound-and-aliased"), ("compact", "spaced", "newlines"))))
     lits = literals(2, [("int", 1), ("str", "s", '"'), ("var", "v")], 2)
     if ctx.thorough:
